@@ -53,7 +53,7 @@ def build_factory(cfg):
 
 
 def ctx_of(cfg):
-    return f"{cfg['kind']}/W{cfg['W']}"
+    return f"{cfg['kind']}/W{cfg['W']}" + ("/ask-backend" if not cfg.get("nodelay", True) else "")
 
 
 def label(cfg):
@@ -100,6 +100,14 @@ def configs(tier, seed):
                 cfg["async"] = not (W == 2 and pi % 8 == 3)
                 cfg.pop("async_")
                 out.append(cfg)
+
+    # start_jobs_without_delay=False: the tuner asks the backend for busy workers; a job may exit between poll and query
+    for kind in ("fifo-random", "hb-stopping", "hb-promotion"):
+        for W in (2, 3):
+            for burst in (False, True):
+                out.append(dict(kind=kind, W=W, R=4, mode="min", seed=seed, profile=dict(burst=burst, rr=False, lag=True),
+                                k=1 if tier == "quick" else 2, stop={"max_num_trials_started": 4}, F=0, faults=("crash",),
+                                wait=True, max_exec=400 if tier == "quick" else 6000, nodelay=False, **{"async": True}))
     return out
 
 
